@@ -295,6 +295,28 @@ static void case_c12w(vrng *r)
     uint32_t how = vrn(r, 3);
     bool clean = true; const char *hown;
     uint8_t *dst = dB; size_t cap = capB;
+    uint32_t nullinit = vrn(r, 6);
+    if (nullinit == 0) {
+        /* a REJECTED init (NULL buffer) in between: the used writer must answer like a fresh struct given the same rejected init,
+           and nothing of the previous use (buffer, counter) may still be reachable through it */
+        binson_writer *f = (binson_writer *)malloc(sizeof(binson_writer));
+        memset(f, 0x77, sizeof *f);
+        size_t nsz = 1 + vrn(r, 64);
+        uint8_t snap[8]; size_t sn = capA < 8 ? capA : 8; memcpy(snap, dA, sn);
+        bool iu = binson_writer_init(w, NULL, nsz), ifr = binson_writer_init(f, NULL, nsz);
+        size_t cu = binson_writer_get_counter(w), cf = binson_writer_get_counter(f);
+        binson_err eu = w->error_flags, ef = f->error_flags;
+        bool wu = binson_write_boolean(w, true), wf = binson_write_boolean(f, true);
+        size_t cu2 = binson_writer_get_counter(w), cf2 = binson_writer_get_counter(f);
+        bool ru = binson_writer_reset(w), rf = binson_writer_reset(f);
+        bool touched = memcmp(snap, dA, sn) != 0;
+        if (iu != ifr || cu != cf || eu != ef || wu != wf || cu2 != cf2 || ru != rf || touched)
+            vw_violation("c12w:not-clean:rejected-init", "after binson_writer_init(w, NULL, %zu) a used writer (counter %zu, error %s before) answers init=%d counter=%zu error=%s write=%d counter=%zu reset=%d%s; a fresh struct answers init=%d counter=%zu error=%s write=%d counter=%zu reset=%d",
+                         nsz, cntA, verr_name((int)errA), iu, cu, verr_name((int)eu), wu, cu2, ru, touched ? " and the buffer of the previous use was modified" : "", ifr, cf, verr_name((int)ef), wf, cf2, rf);
+        vw_count("reuse_after_rejected_init", 1);
+        free(f);
+        if (how == 2) how = 1;      /* no buffer to reset any more: restart through init on the same buffer */
+    }
     if (how == 0) { hown = "init"; if (!binson_writer_init(w, dB, capB)) { vw_violation("c12w:init-failed", "binson_writer_init returned false on a valid buffer"); clean = false; } }
     else if (how == 1) { hown = "init(same buffer)"; dst = dA; cap = capA; if (!binson_writer_init(w, dA, capA)) { vw_violation("c12w:init-failed", "binson_writer_init returned false on a valid buffer"); clean = false; } }
     else {
